@@ -22,9 +22,9 @@ def obligations(tier):
         obs.append(dict(name=f"save_fails[{['unserializable value','chart cannot be serialized','unencodable character (cp1252)','lone surrogate (utf-8)'][kind]}]", func="save_fails", pre=f"kind == {kind}", timeout=T,
                         bounds="backup/output configuration, both formats"))
     for ssc in (False, True):
-        for op in range(1, 7):
+        for op in range(0, 7):
             obs.append(dict(name=f"fs_fault[ssc={ssc},edit={op}]", func="fs_fault", pre=f"ssc == {ssc} and op == {op}", timeout=T,
-                            bounds="fault at the k-th filesystem operation, k symbolic in 1..14, backup/output configuration; body edit: set / delete / add property, append chart + edit, in-place chart edit, chart removed"))
+                            bounds="fault at the k-th filesystem operation, k symbolic in 1..14, backup/output configuration; body edit: none / set / delete / add property, append chart + edit, in-place chart edit, chart removed"))
     return obs
 
 
